@@ -3,14 +3,10 @@
   stability of both lookups on the cells of the endpoint partition, and the finite re-check that
   proves equality for all code points.
 -/
-import Avt.Lemmas.Lookup
-import Avt.Spec.C03
+import Avt.Lemmas.ParserReps
 
 namespace Avt.ParserTable
 open Avt Avt.Lookup Avt.Spec.C03
-
-/-- endpoints of a list of diagram rows -/
-def rowBounds (l : List Row) : List Nat := l.flatMap fun r => r.ranges.flatMap fun iv => [iv.1, iv.2 + 1]
 
 theorem stable_rowFind (l : List Row) : Stable (rowBounds l) (fun c => l.find? (fun r => r.has c)) := by
   apply Stable.find
@@ -21,14 +17,6 @@ theorem stable_rowFind (l : List Row) : Stable (rowBounds l) (fun c => l.find? (
   have hlo : iv.1 ∈ rowBounds l := List.mem_flatMap.2 ⟨r, hr, List.mem_flatMap.2 ⟨iv, hiv, by simp⟩⟩
   have hhi : iv.2 + 1 ∈ rowBounds l := List.mem_flatMap.2 ⟨r, hr, List.mem_flatMap.2 ⟨iv, hiv, by simp⟩⟩
   exact Stable.range hlo hhi
-
-/-- the endpoints that matter for state `st`: the premap thresholds, the generated arm list's and the
-    diagram's -/
-def bounds (st : PState) : List Nat :=
-  0xA0 :: Gen.premapFrom :: (armBounds Gen.feedArms ++ rowBounds (anywhere ++ rows st))
-
-/-- the diagram's own endpoints for state `st` (plus the threshold of D4) -/
-def wbounds (st : PState) : List Nat := 0xA0 :: rowBounds (anywhere ++ rows st)
 
 theorem stable_williams' (st : PState) : Stable (wbounds st) (fun c => williams st c) := by
   have h1 : Stable (wbounds st) (fun c => (anywhere ++ rows st).find? (fun r => r.has c)) :=
@@ -70,9 +58,6 @@ theorem stable_kindAndNext (st : PState) : Stable (bounds st) (fun c => kindAndN
   simp only [kindAndNext, Parser.premap]
   simp only at this
   rw [this]
-
-/-- the finite re-check: one representative per cell, all 14 states -/
-def reps (st : PState) : List Nat := (0 :: bounds st).eraseDups
 
 /-- a stable predicate that holds on the (duplicate-free) representatives holds everywhere -/
 theorem forall_of_reps_st {st : PState} {P : Nat → Bool} (hP : Stable (bounds st) P)
